@@ -28,19 +28,23 @@ DT = DT_HIST + [torch.uint16, torch.uint32, torch.uint64]
 # ------------------------------------------------------------------------------- structures
 def gen_tree(rng, b, depth=0):
     """spec: list of (key, ('l', dtype, shape) | ('nt', payload) | ('n', sub-spec))"""
-    keys = list("abcdefgh")
+    # keys: also with dots (the file is `<key>.memmap`, the sub-directory `<key>`: a key is not a file name with a suffix),
+    # dashes, underscores, capitals, a key that looks like another entry's file
+    keys = list("abcdefgh") + ["a.b", "x.y.z", "k-1", "_u", "A", "b.memmap", "meta"]
     rng.shuffle(keys)
     n = rng.randint(1, 4) if depth == 0 else rng.randint(0, 3)
     out = []
     for k in keys[:n]:
         r = rng.random()
+        if k == "b.memmap" and "b" in keys[:n]:
+            continue    # the excluded point of PathSafe: a node / leaf named like another leaf's file
         if depth < 2 and r < 0.08 and len(b) >= 1 and b[0] > 0:
             # a lazy stack along dim 0: members share keys and dtypes
             member = [(kk, ("l", rng.choice(DT), b[1:] + rng.choice([[], [2], [0]]))) for kk in list("xyz")[: rng.randint(1, 2)]]
             if rng.random() < 0.4:
                 member.append(("w", ("n", [("v", ("l", rng.choice(DT), b[1:]))])))
             out.append((k, ("lz", [member] * b[0])))
-        elif depth < 2 and r < 0.25:
+        elif (depth < 2 and r < 0.25) or (depth == 2 and r < 0.15):
             out.append((k, ("n", gen_tree(rng, b, depth + 1))))
         elif r < 0.35:
             out.append((k, ("nt", rng.choice(["hello", "x", "payload"]))))
@@ -202,6 +206,10 @@ def run_model_streams(run, drv):
             if it == 0:
                 spec = [("a", ("l", torch.float32, b + [2])), ("z", ("l", torch.float64, b + [0])), ("s", ("nt", "hello")),
                         ("m", ("n", [("x", ("l", torch.uint8, b)), ("e", ("n", []))]))]
+            if it == 1 or (it > 1 and it % 30 == 1):
+                # a lazy stack with more members than one decimal digit counts (directories "0" … "11+": numeric, not lexicographic, order)
+                b = [rng.randint(11, 13)]
+                spec = [("t", ("l", torch.int32, b)), ("ls", ("lz", [[("x", ("l", torch.int16, [])), ("y", ("l", torch.float32, [2]))]] * b[0]))]
             device = rng.choice([None, "cpu"])
             td = build(spec, b, device)
             tsx = td_sx(td)
